@@ -125,7 +125,16 @@ pub const KEYS: [&str; 4] = ["a", "b", "c", ""];
 /// Key `k` of the four-key universe: "a", "c" and "" collide under the model
 /// hasher, "b" does not.
 pub fn key(k: u8) -> Key {
-	Key::from(KEYS[(k & 3) as usize])
+	// built by pushes of concrete characters: `Key::from(&str)` with a symbolic
+	// table index is a memcpy of symbolic length (out of memory at 12 GB)
+	let mut s = Key::new();
+	match k & 3 {
+		0 => s.push('a'),
+		1 => s.push('b'),
+		2 => s.push('c'),
+		_ => (),
+	}
+	s
 }
 
 pub fn entry(k: u8) -> Entry {
@@ -133,29 +142,55 @@ pub fn entry(k: u8) -> Entry {
 }
 
 pub fn hash_of(k: u8) -> u64 {
-	DefaultHashBuilder.hash_one(KEYS[(k & 3) as usize])
+	match k & 3 {
+		0 => DefaultHashBuilder.hash_one(KEYS[0]),
+		1 => DefaultHashBuilder.hash_one(KEYS[1]),
+		2 => DefaultHashBuilder.hash_one(KEYS[2]),
+		_ => DefaultHashBuilder.hash_one(KEYS[3]),
+	}
 }
 
-/// The canonical index of `keys[..n]`: for every distinct key one `Indexes`
-/// holding its positions in ascending order. Built by direct table writes.
-pub fn canonical(keys: &[u8], n: usize) -> IndexMap {
+/// A key-equality PATTERN is concrete per harness instance (`pat[i]` = class
+/// of entry i, classes numbered in order of first appearance: [0,1,0] means
+/// "first and third entries share a key, the second differs"), so that the
+/// SHAPE of the index (number of buckets, lengths of the position lists) is
+/// concrete, while the identity of the keys is symbolic: `cls` is an arbitrary
+/// permutation of the four-key universe, so equal and colliding hashes between
+/// classes are both covered. (Fully symbolic keys make the lengths of the
+/// position vectors symbolic: 15 min / 12 GB without finishing.)
+#[cfg(kani)]
+pub fn any_classes() -> [u8; 4] {
+	let c: [u8; 4] = [kani::any(), kani::any(), kani::any(), kani::any()];
+	kani::assume(c[0] < 4 && c[1] < 4 && c[2] < 4 && c[3] < 4);
+	kani::assume(c[0] != c[1] && c[0] != c[2] && c[0] != c[3] && c[1] != c[2] && c[1] != c[3] && c[2] != c[3]);
+	c
+}
+
+pub fn keys_of(pat: &[usize; 3], cls: &[u8; 4]) -> [u8; 3] {
+	[cls[pat[0]], cls[pat[1]], cls[pat[2]]]
+}
+
+/// The canonical index of the first `n` entries of the pattern: for every
+/// class one `Indexes` holding its positions in ascending order. Built by
+/// direct table writes.
+pub fn canonical(pat: &[usize; 3], keys: &[u8; 3], n: usize) -> IndexMap {
 	let mut table: RawTable<Indexes> = RawTable::default();
 	let mut i = 0;
-	while i < keys.len() {
+	while i < 3 {
 		if i < n {
 			let mut first = true;
 			let mut j = 0;
-			while j < keys.len() {
-				if j < i && keys[j] == keys[i] {
+			while j < i {
+				if pat[j] == pat[i] {
 					first = false;
 				}
 				j += 1;
 			}
 			if first {
 				let mut other = Vec::with_capacity(4);
-				let mut j = 0;
-				while j < keys.len() {
-					if j > i && j < n && keys[j] == keys[i] {
+				let mut j = i + 1;
+				while j < n {
+					if pat[j] == pat[i] {
 						other.push(j);
 					}
 					j += 1;
@@ -171,36 +206,73 @@ pub fn canonical(keys: &[u8], n: usize) -> IndexMap {
 	}
 }
 
-/// `map` is exactly the canonical index of `keys[..n]`: every key query
-/// answers like a linear scan and the table holds nothing else.
-pub fn is_canonical(map: &IndexMap, entries: &[Entry], keys: &[u8], n: usize) -> bool {
-	let mut distinct = 0;
-	let mut q = 0u8;
-	while q < 4 {
-		let mut want: u16 = 0;
-		let mut j = 0;
-		while j < keys.len() {
-			if j < n && keys[j] == q {
-				want |= 1 << j;
-			}
-			j += 1;
+/// Positions (bit mask) of class `c` among the first `n` entries of `pat`.
+pub fn class_mask(pat: &[usize; 3], n: usize, c: usize) -> u16 {
+	let mut m = 0;
+	let mut j = 0;
+	while j < 3 {
+		if j < n && pat[j] == c {
+			m |= 1 << j;
 		}
-		match map.get(entries, KEYS[q as usize]) {
-			None => {
-				if want != 0 {
-					return false;
-				}
-			}
-			Some(ix) => {
-				distinct += 1;
-				if positions(ix) != Some(want) {
-					return false;
-				}
-			}
-		}
-		q += 1;
+		j += 1;
 	}
-	map.table.len() == distinct
+	m
+}
+
+/// `map` is exactly the canonical index of the first `n` entries of `pat`.
+///
+/// Decided in two parts so that the formula stays small: (1) by direct
+/// inspection of the model table — every stored `Indexes` holds exactly the
+/// positions of its representative's class, in order, under the hash of the
+/// representative's key; classes are disjoint and together cover 0..n — and
+/// (2) one lookup through the real `IndexMap::get` for a SYMBOLIC class
+/// (present, duplicated or absent), which must answer like a linear scan.
+pub fn is_canonical(map: &IndexMap, entries: &[Entry], pat: &[usize; 3], cls: &[u8; 4], n: usize) -> bool {
+	let mut covered: u16 = 0;
+	let mut i = 0;
+	while i < CAP {
+		if let Some((h, ix)) = map.table.slot(i) {
+			if ix.rep >= n || ix.rep >= 3 {
+				return false;
+			}
+			let c = pat[ix.rep];
+			let want = class_mask(pat, n, c);
+			if positions(ix) != Some(want) || *h != hash_of(cls[c & 3]) || covered & want != 0 {
+				return false;
+			}
+			covered |= want;
+		}
+		i += 1;
+	}
+	if covered != (1u16 << n) - 1 {
+		return false;
+	}
+	query_agrees(map, entries, pat, cls, n)
+}
+
+#[cfg(kani)]
+fn query_agrees(map: &IndexMap, entries: &[Entry], pat: &[usize; 3], cls: &[u8; 4], n: usize) -> bool {
+	let c: usize = kani::any();
+	kani::assume(c < 4);
+	let want = class_mask(pat, n, c);
+	let q = key(cls[c]);
+	let r = match map.get(entries, &q) {
+		None => want == 0,
+		Some(ix) => positions(ix) == Some(want),
+	};
+	core::mem::forget(q);
+	r
+}
+
+#[cfg(not(kani))]
+fn query_agrees(map: &IndexMap, entries: &[Entry], pat: &[usize; 3], cls: &[u8; 4], n: usize) -> bool {
+	(0..4).all(|c| {
+		let want = class_mask(pat, n, c);
+		match map.get(entries, &key(cls[c])) {
+			None => want == 0,
+			Some(ix) => positions(ix) == Some(want),
+		}
+	})
 }
 
 /// Stored hashes are those of the representative's key (what a real table
@@ -218,121 +290,136 @@ pub fn hashes_fresh(map: &IndexMap, keys: &[u8]) -> bool {
 	true
 }
 
-#[cfg(kani)]
-fn any_keys3() -> [u8; 3] {
-	let k: [u8; 3] = [kani::any(), kani::any(), kani::any()];
-	kani::assume(k[0] < 4 && k[1] < 4 && k[2] < 4);
-	k
-}
-
-/// insert(entries, n) from the canonical index of entries[..n], n in 0..=2
+/// insert(entries, n) from the canonical index of entries[..n]
 macro_rules! i2_insert {
-	($name:ident, $n:expr) => {
+	($name:ident, $pat:expr, $n:expr) => {
 		#[cfg(kani)]
 		#[kani::proof]
-		#[kani::unwind(6)]
+		#[kani::unwind(5)]
+		#[kani::stub(smallvec::SmallVec::try_grow, crate::verif::util::no_grow)]
 		fn $name() {
 			const N: usize = $n;
-			let keys = any_keys3();
+			const P: [usize; 3] = $pat;
+			let cls = any_classes();
+			let keys = keys_of(&P, &cls);
 			let entries = [entry(keys[0]), entry(keys[1]), entry(keys[2])];
-			let mut map = canonical(&keys, N);
-			assert!(is_canonical(&map, &entries, &keys, N), "C06:harness-builds-a-canonical-index");
+			let mut map = canonical(&P, &keys, N);
 			let fresh = map.insert(&entries, N);
 			let mut seen = false;
 			let mut j = 0;
 			while j < N {
-				if keys[j] == keys[N] {
+				if P[j] == P[N] {
 					seen = true;
 				}
 				j += 1;
 			}
 			assert!(fresh == !seen, "C06:insert-reports-whether-the-key-is-new");
-			assert!(is_canonical(&map, &entries, &keys, N + 1), "C06:index-canonical-after-append");
+			assert!(is_canonical(&map, &entries, &P, &cls, N + 1), "C06:index-canonical-after-append");
 			assert!(hashes_fresh(&map, &keys), "C06:stored-hashes-match-representatives");
 			assert!(map.contains_duplicate_keys() == (N + 1 > map.table.len()), "C06:contains-duplicate-keys");
-			kani::cover!(N == 0 || seen);
-			kani::cover!(!seen);
+			kani::cover!(hash_of(cls[0]) == hash_of(cls[1]));
+			kani::cover!(hash_of(cls[0]) != hash_of(cls[1]));
 			core::mem::forget(map);
 			core::mem::forget(entries);
 		}
 	};
 }
 
-i2_insert!(i2_insert_n0, 0);
-i2_insert!(i2_insert_n1, 1);
-i2_insert!(i2_insert_n2, 2);
+i2_insert!(i2_insert_a, [0, 1, 2], 0);
+i2_insert!(i2_insert_aa, [0, 0, 1], 1);
+i2_insert!(i2_insert_ab, [0, 1, 2], 1);
+i2_insert!(i2_insert_aaa, [0, 0, 0], 2);
+i2_insert!(i2_insert_aab, [0, 0, 1], 2);
+i2_insert!(i2_insert_aba, [0, 1, 0], 2);
+i2_insert!(i2_insert_abb, [0, 1, 1], 2);
+i2_insert!(i2_insert_abc, [0, 1, 2], 2);
 
-/// front insertion: entries = [new] ++ old; index of old (positions 0..n) is
-/// shifted up and position 0 is indexed, as `push_entry_front` does.
+/// front insertion: entries = [new] ++ old; the index of `old` (built with
+/// positions 0..n) is shifted up and position 0 is indexed, as
+/// `push_entry_front` does.
 macro_rules! i2_insert_front {
-	($name:ident, $n:expr) => {
+	($name:ident, $pat:expr, $n:expr) => {
 		#[cfg(kani)]
 		#[kani::proof]
-		#[kani::unwind(6)]
+		#[kani::unwind(5)]
+		#[kani::stub(smallvec::SmallVec::try_grow, crate::verif::util::no_grow)]
 		fn $name() {
-			const N: usize = $n;
-			let keys = any_keys3(); // keys[0] is the new front entry, keys[1..=N] the old list
+			const N: usize = $n; // number of old entries
+			const P: [usize; 3] = $pat; // pattern of the NEW list: P[0] is the front entry
+			let cls = any_classes();
+			let keys = keys_of(&P, &cls);
 			let entries = [entry(keys[0]), entry(keys[1]), entry(keys[2])];
-			let old = [keys[1], keys[2], 0];
-			let mut map = canonical(&old, N);
+			// the old list is entries[1..=N]; its own pattern, renumbered
+			let old_pat: [usize; 3] = [P[1], P[2], 3];
+			let old_keys = [keys[1], keys[2], 0];
+			let mut map = canonical(&old_pat, &old_keys, N);
 			map.shift_up(0);
 			let fresh = map.insert(&entries, 0);
 			let mut seen = false;
 			let mut j = 1;
 			while j <= N {
-				if keys[j] == keys[0] {
+				if P[j] == P[0] {
 					seen = true;
 				}
 				j += 1;
 			}
 			assert!(fresh == !seen, "C06:insert-reports-whether-the-key-is-new");
-			assert!(is_canonical(&map, &entries, &keys, N + 1), "C06:index-canonical-after-front-insertion");
+			assert!(is_canonical(&map, &entries, &P, &cls, N + 1), "C06:index-canonical-after-front-insertion");
 			assert!(hashes_fresh(&map, &keys), "C06:stored-hashes-match-representatives");
-			kani::cover!(N == 0 || seen);
-			kani::cover!(!seen);
+			kani::cover!(hash_of(cls[0]) == hash_of(cls[1]));
+			kani::cover!(hash_of(cls[0]) != hash_of(cls[1]));
 			core::mem::forget(map);
 			core::mem::forget(entries);
 		}
 	};
 }
 
-i2_insert_front!(i2_insert_front_n0, 0);
-i2_insert_front!(i2_insert_front_n1, 1);
-i2_insert_front!(i2_insert_front_n2, 2);
+i2_insert_front!(i2_insert_front_a, [0, 1, 2], 0);
+i2_insert_front!(i2_insert_front_aa, [0, 0, 1], 1);
+i2_insert_front!(i2_insert_front_ab, [0, 1, 2], 1);
+i2_insert_front!(i2_insert_front_aaa, [0, 0, 0], 2);
+i2_insert_front!(i2_insert_front_aab, [0, 0, 1], 2);
+i2_insert_front!(i2_insert_front_aba, [0, 1, 0], 2);
+i2_insert_front!(i2_insert_front_abb, [0, 1, 1], 2);
+i2_insert_front!(i2_insert_front_abc, [0, 1, 2], 2);
 
-/// removal of position i from a 3-entry (or shorter) list, as `remove_at`
-/// does: remove(entries, i) then shift_down(i), the entry vector shrinking
-/// afterwards.
+/// removal of position i (symbolic) as `remove_at` does: remove(entries, i)
+/// then shift_down(i), the entry vector shrinking afterwards.
 macro_rules! i2_remove {
-	($name:ident, $n:expr) => {
+	($name:ident, $pat:expr, $n:expr) => {
 		#[cfg(kani)]
 		#[kani::proof]
-		#[kani::unwind(6)]
+		#[kani::unwind(5)]
+		#[kani::stub(smallvec::SmallVec::try_grow, crate::verif::util::no_grow)]
 		fn $name() {
 			const N: usize = $n;
-			let keys = any_keys3();
+			const P: [usize; 3] = $pat;
+			let cls = any_classes();
+			let keys = keys_of(&P, &cls);
 			let entries = [entry(keys[0]), entry(keys[1]), entry(keys[2])];
-			let mut map = canonical(&keys, N);
+			let mut map = canonical(&P, &keys, N);
 			let i: usize = kani::any();
 			kani::assume(i < N);
 			map.remove(&entries, i);
 			map.shift_down(i);
-			// the list after removal
-			let mut after = [0u8; 3];
+			// the list after removal (pattern and keys)
+			let mut ap: [usize; 3] = [3; 3];
+			let mut ak = [0u8; 3];
 			let mut m = 0;
 			let mut j = 0;
-			while j < N {
-				if j != i {
-					after[m] = keys[j];
+			while j < 3 {
+				if j < N && j != i {
+					ap[m] = P[j];
+					ak[m] = keys[j];
 					m += 1;
 				}
 				j += 1;
 			}
-			let entries_after = [entry(after[0]), entry(after[1]), entry(after[2])];
-			assert!(is_canonical(&map, &entries_after, &after, N - 1), "C06:index-canonical-after-removal");
-			assert!(hashes_fresh(&map, &after), "C06:stored-hashes-match-representatives");
-			kani::cover!(N < 2 || (i == 0 && keys[0] == keys[1]));
-			kani::cover!(N < 3 || (i == 1 && keys[0] == keys[2]));
+			let entries_after = [entry(ak[0]), entry(ak[1]), entry(ak[2])];
+			assert!(is_canonical(&map, &entries_after, &ap, &cls, N - 1), "C06:index-canonical-after-removal");
+			assert!(hashes_fresh(&map, &ak), "C06:stored-hashes-match-representatives");
+			kani::cover!(i == 0);
+			kani::cover!(i + 1 == N);
 			core::mem::forget(map);
 			core::mem::forget(entries);
 			core::mem::forget(entries_after);
@@ -340,30 +427,49 @@ macro_rules! i2_remove {
 	};
 }
 
-i2_remove!(i2_remove_n1, 1);
-i2_remove!(i2_remove_n2, 2);
-i2_remove!(i2_remove_n3, 3);
+i2_remove!(i2_remove_a, [0, 1, 2], 1);
+i2_remove!(i2_remove_aa, [0, 0, 1], 2);
+i2_remove!(i2_remove_ab, [0, 1, 2], 2);
+i2_remove!(i2_remove_aaa, [0, 0, 0], 3);
+i2_remove!(i2_remove_aab, [0, 0, 1], 3);
+i2_remove!(i2_remove_aba, [0, 1, 0], 3);
+i2_remove!(i2_remove_abb, [0, 1, 1], 3);
+i2_remove!(i2_remove_abc, [0, 1, 2], 3);
 
-/// clear + rebuild (what `sort` does): the result is canonical whatever the
-/// index held before.
-#[cfg(kani)]
-#[kani::proof]
-#[kani::unwind(6)]
-fn i2_clear_rebuild() {
-	let keys = any_keys3();
-	let entries = [entry(keys[0]), entry(keys[1]), entry(keys[2])];
-	let stale = any_keys3();
-	let mut map = canonical(&stale, 3);
-	map.clear();
-	assert!(map.table.len() == 0, "C06:clear-empties-the-index");
-	let mut i = 0;
-	while i < 3 {
-		map.insert(&entries, i);
-		i += 1;
-	}
-	assert!(is_canonical(&map, &entries, &keys, 3), "C06:index-canonical-after-rebuild");
-	assert!(hashes_fresh(&map, &keys), "C06:stored-hashes-match-representatives");
-	kani::cover!(keys[0] == keys[2] && keys[1] != keys[0]);
-	core::mem::forget(map);
-	core::mem::forget(entries);
+/// clear + rebuild (what `sort`/`canonicalize` do): the result is canonical
+/// whatever the index held before.
+macro_rules! i2_clear_rebuild {
+	($name:ident, $pat:expr, $stale:expr) => {
+		#[cfg(kani)]
+		#[kani::proof]
+		#[kani::unwind(5)]
+		#[kani::stub(smallvec::SmallVec::try_grow, crate::verif::util::no_grow)]
+		fn $name() {
+			const P: [usize; 3] = $pat;
+			const S: [usize; 3] = $stale;
+			let cls = any_classes();
+			let keys = keys_of(&P, &cls);
+			let entries = [entry(keys[0]), entry(keys[1]), entry(keys[2])];
+			let stale_cls = any_classes();
+			let stale_keys = keys_of(&S, &stale_cls);
+			let mut map = canonical(&S, &stale_keys, 3);
+			map.clear();
+			assert!(map.table.len() == 0, "C06:clear-empties-the-index");
+			let mut i = 0;
+			while i < 3 {
+				map.insert(&entries, i);
+				i += 1;
+			}
+			assert!(is_canonical(&map, &entries, &P, &cls, 3), "C06:index-canonical-after-rebuild");
+			assert!(hashes_fresh(&map, &keys), "C06:stored-hashes-match-representatives");
+			kani::cover!(hash_of(cls[0]) != hash_of(cls[1]));
+			core::mem::forget(map);
+			core::mem::forget(entries);
+		}
+	};
 }
+
+i2_clear_rebuild!(i2_clear_rebuild_aba, [0, 1, 0], [0, 0, 1]);
+i2_clear_rebuild!(i2_clear_rebuild_abc, [0, 1, 2], [0, 1, 0]);
+i2_clear_rebuild!(i2_clear_rebuild_aaa, [0, 0, 0], [0, 1, 2]);
+
